@@ -9,4 +9,5 @@ QuickComp    == {<<-2, "pat">>, <<1, "pat">>, <<1, "rnd">>, <<9, "rnd">>}
 QuickMulti   == {<<1, "pat">>, <<1, "rnd">>}
 AllLevels    == {<<l, c>> : l \in -2..9, c \in {"pat", "rnd"}}
 ThoroughBig  == {<<1, "pat">>, <<1, "rnd">>, <<9, "rnd">>, <<-2, "pat">>}
+ResidComp    == {<<1, "rnd">>}
 =============================================================================
